@@ -203,6 +203,16 @@ VarioDirectional(i) ==
 (* along e1, fluctuation scaled by the current mean and sqrt(var)), i.e. equal to what *)
 (* a freshly built generator with these settings returns: out.gens lists, for every   *)
 (* "gen" of the history, the settings its result must correspond to.                  *)
+(* Further operations that leave the settings alone:                                   *)
+(*  - "copy" / "deepcopy" / "pickle": the object is replaced by its copy (copy.copy,   *)
+(*    copy.deepcopy, pickle round trip); the copy is a generator with the ORIGINAL's    *)
+(*    settings, so everything generated afterwards obeys the same clauses.  For the     *)
+(*    independent copies (deepcopy, pickle) the original must in turn be unaffected by  *)
+(*    what is done to the copy afterwards: out.orig = its settings at the first such    *)
+(*    copy.                                                                             *)
+(*  - "gen" carries in v the spelling of the call, which must not matter: 0 = SRF      *)
+(*    call, 1 = generator(pos), 2 = generator(pos, add_nugget=False), 3 = generator(    *)
+(*    pos, add_nugget=True) (the models have no nugget).                               *)
 ApplyOp(st, o) ==
   CASE o.op = "mean"  -> [st EXCEPT !.mean = o.v]
     [] o.op = "var"   -> [st EXCEPT !.ve = o.v]
@@ -216,19 +226,34 @@ HistGens(st, ops) ==
        IF o.op = "gen" THEN <<st>> \o HistGens(st, Tail(ops))
        ELSE HistGens(ApplyOp(st, o), Tail(ops))
 
+RECURSIVE HistOrig(_, _)
+HistOrig(st, ops) ==
+  IF ops = <<>> THEN <<>>
+  ELSE LET o == Head(ops) IN
+       IF o.op \in {"deepcopy", "pickle"} THEN <<st>>
+       ELSE HistOrig(ApplyOp(st, o), Tail(ops))
+
+(* Value scales.  Every kernel is linear in its amplitudes (z1, z2 / spectrum factor / *)
+(* conditioning values): an input may carry a scale exponent `se`, meaning that the     *)
+(* amplitudes handed to the implementation are 2^se times the integers of the record    *)
+(* (exact in binary64 for |se| <= 900); the result must then be exactly 2^se times the  *)
+(* integer result below -- for tiny and huge scales alike (no absolute threshold may    *)
+(* decide which terms are summed).                                                      *)
+ScaleOf(i) == IF "se" \in DOMAIN i THEN i.se ELSE 0
+
 (* C16: a single mode with z1 = 1, z2 = 0 at x = 0 returns the projector itself *)
 Projector(i) == [c \in 1..Len(i.kv) |-> Proj(i.kv, c)]
 
 Result(i) ==
-  CASE i.kind = "summate"    -> [field |-> Summate(i)]
-    [] i.kind = "fourier"    -> [field |-> SummateFourier(i)]
-    [] i.kind = "incompr"    -> [field |-> SummateIncompr(i)]
-    [] i.kind = "krige"      -> [field |-> KrigeField(i), error |-> KrigeError(i)]
+  CASE i.kind = "summate"    -> [field |-> Summate(i), se |-> ScaleOf(i)]
+    [] i.kind = "fourier"    -> [field |-> SummateFourier(i), se |-> ScaleOf(i)]
+    [] i.kind = "incompr"    -> [field |-> SummateIncompr(i), se |-> ScaleOf(i)]
+    [] i.kind = "krige"      -> [field |-> KrigeField(i), error |-> KrigeError(i), se |-> ScaleOf(i)]
     [] i.kind = "krige_far"  -> KrigeFar(i)
     [] i.kind = "vario_u"    -> [bins |-> VarioUnstructured(i)]
     [] i.kind = "vario_s"    -> [bins |-> VarioStructured(i)]
     [] i.kind = "vario_d"    -> [dirs |-> VarioDirectional(i), coincident |-> VarioCoincident(i)]
-    [] i.kind = "vf_hist"    -> [gens |-> HistGens(i.init, i.ops)]
+    [] i.kind = "vf_hist"    -> [gens |-> HistGens(i.init, i.ops), orig |-> HistOrig(i.init, i.ops)]
     [] i.kind = "projector"  -> [p |-> Projector(i)]
 
 CaseInit == \E n \in 1..Len(Cases) : inp = Cases[n]
